@@ -527,6 +527,11 @@ pub struct OutcomeCase {
     /// 0 = nothing else; k+1 = a second request of kind k is submitted right behind the first and waits in the queue
     #[serde(default)]
     pub queued: u8,
+    /// with a lost reply: what the outstation sends instead of the reply. 0 nothing, 1 a REQUEST_LINK_STATUS frame,
+    /// 2 a LINK_STATUS frame from another outstation address, 3 a null unsolicited response, 4 a response with another
+    /// sequence number, 5 a response from another outstation address - none of them is the answer
+    #[serde(default)]
+    pub noise: u8,
 }
 
 pub const KINDS: [(&str, u8); 12] = [
@@ -658,8 +663,9 @@ impl Prop for Outcomes {
             prop_oneof![2 => Just(FaultKind::ReplyLost), 2 => Just(FaultKind::Disconnect), 2 => Just(FaultKind::Disable), 2 => Just(FaultKind::RemoveAssociation), 1 => Just(FaultKind::None)],
             prop_oneof![4 => Just(0u8), 1 => Just(1u8), 1 => Just(2u8)],
             prop_oneof![2 => Just(0u8), 1 => 1u8..=KINDS.len() as u8],
+            prop_oneof![1 => Just(0u8), 2 => 1u8..=5],
         )
-            .prop_map(|(kind, after_step, fault, reader_abort, queued)| OutcomeCase { kind, after_step, fault, reader_abort, queued })
+            .prop_map(|(kind, after_step, fault, reader_abort, queued, noise)| OutcomeCase { kind, after_step, fault, reader_abort, queued, noise })
             .boxed()
     }
     fn run(case: &OutcomeCase) -> CaseOut {
@@ -825,7 +831,24 @@ async fn judge_outcomes(
             match case.fault {
                 FaultKind::ReplyLost => {
                     // swallow the request that is on the wire now and never answer it
-                    let _ = rig.take_tx();
+                    let tx = rig.take_tx();
+                    let seq = tx.iter().rev().find_map(|t| match t {
+                        MTx::Fragment { bytes, .. } if bytes.len() >= 2 && bytes[1] != func::CONFIRM => Some(bytes[0] & 0x0F),
+                        _ => None,
+                    });
+                    if case.noise % 6 != 0 && (seq.is_some() || name == "link_status") {
+                        out.label("noise_instead_of_the_reply");
+                        let empty = |seq: u8, uns: bool| Fragment { fir: true, fin: true, con: uns, uns, seq, func: if uns { func::UNSOLICITED_RESPONSE } else { func::RESPONSE }, iin: Some((0, 0)), objects: vec![] };
+                        match case.noise % 6 {
+                            1 => rig.send_raw(&rl::encode(0x49, M_ADDR, OUT, &[])),
+                            2 => rig.send_raw(&rl::encode(0x0B, M_ADDR, OUT + 1, &[])),
+                            3 => rig.respond(OUT, &empty(5, true)),
+                            4 => rig.respond(OUT, &empty((seq.unwrap_or(0) + 3) & 0x0F, false)),
+                            _ => rig.respond(OUT + 1, &empty(seq.unwrap_or(0), false)),
+                        }
+                        rig.settle().await;
+                        let _ = rig.take_tx();
+                    }
                     expect_ok = false;
                     break;
                 }
